@@ -6,6 +6,9 @@ pub enum Sym {
     T(usize),    // terminal index into Spec::terminals
     N(usize),    // nonterminal index into Spec::nts
     Recover,     // the `!` error-recovery terminal
+    Star(usize), // `Nt*`  (LALRPOP generates a helper nonterminal)
+    Plus(usize), // `Nt+`
+    Opt(usize),  // `Nt?`
 }
 
 #[derive(Clone, Debug)]
@@ -100,6 +103,13 @@ impl B {
                 self.rec = true;
             } else if let Some(i) = self.nts.iter().position(|n| n.name == w) {
                 syms.push(Sym::N(i));
+            } else if w.len() > 1 && (w.ends_with('*') || w.ends_with('+') || w.ends_with('?')) && self.nts.iter().any(|n| n.name == w[..w.len() - 1]) {
+                let i = self.nts.iter().position(|n| n.name == w[..w.len() - 1]).unwrap();
+                syms.push(match w.as_bytes()[w.len() - 1] {
+                    b'*' => Sym::Star(i),
+                    b'+' => Sym::Plus(i),
+                    _ => Sym::Opt(i),
+                });
             } else {
                 let s = t(&mut self.terms, w);
                 syms.push(s);
@@ -349,6 +359,20 @@ fn hand_specs() -> Vec<Spec> {
         v.push(b.done());
     }
     {
+        // EBNF suffixes: LALRPOP turns `X*`, `X+`, `X?` into generated helper nonterminals
+        let mut b = B::new("ebnf");
+        let d = b.nt("Docx", true, false);
+        let e = b.nt("Entry", false, false);
+        let vv = b.nt("Valy", false, false);
+        b.p(d, "Entry*");
+        b.p(e, "id = Valy ; ?");
+        b.p(e, "{ Entry+ }");
+        b.p(e, "q Valy? ; ?");
+        b.p(vv, "n ?");
+        b.p(vv, "( Valy )");
+        v.push(b.done());
+    }
+    {
         // nullable start symbol: the empty input is a sentence, and so is every prefix that ends a list
         let mut b = B::new("optlist");
         let s2 = b.nt("Elems", true, false);
@@ -529,6 +553,16 @@ pub fn render(spec: &Spec, var: &Variant) -> String {
                     Sym::Recover => {
                         line.push_str(&format!(" <v{k}:!>"));
                         names.push(format!("ctx.rec(v{k})"));
+                    }
+                    Sym::Star(i) | Sym::Plus(i) | Sym::Opt(i) => {
+                        let suffix = match s {
+                            Sym::Star(_) => "*",
+                            Sym::Plus(_) => "+",
+                            _ => "?",
+                        };
+                        line.push_str(&format!(" <v{k}:{}{suffix}>", spec.nts[*i].name));
+                        // all children of a repetition / option are folded into one node
+                        names.push(format!("ctx.fold(v{k}.into_iter().collect())"));
                     }
                 }
             }
